@@ -152,8 +152,17 @@ def canon_params(p, strict=False):
             if getattr(p, "_original_sim_params", None) is not None else None)
 
 
+RESULT_STATE = (("name", "name"), ("update_type_code", "_update_type_code"),
+                ("value", "_value"), ("total", "_total"), ("result_sum", "_result_sum"),
+                ("result_squared_sum", "_result_squared_sum"), ("num_updates", "num_updates"),
+                ("accumulate_values_bool", "_accumulate_values_bool"),
+                ("value_list", "_value_list"), ("total_list", "_total_list"))
+
+
 def canon_result(r, strict=False):
-    d = r.to_dict()
+    # the object's own state (not its to_dict(), which is what is under test)
+    d = {k: getattr(r, a) for k, a in RESULT_STATE}
+    d["get_result"] = r.get_result() if r.num_updates else None
     return tuple((k, canon(d[k], strict)) for k in sorted(d))
 
 
@@ -256,10 +265,20 @@ def case_params(ctx, rng, idx):
     ctx.sample("params", tag)
 
 
-def gen_result(rng, name, t, acc, nupd):
+def gen_result(rng, name, t, acc, nupd, merges=True):
     r = Result(name, t, accumulate_values=acc, choice_num=4) if t == Result.CHOICETYPE \
         else Result(name, t, accumulate_values=acc)
+    more_ops(rng, r, t, acc, nupd, merges)
+    return r
+
+
+def more_ops(rng, r, t, acc, nupd, merges=True):
+    """Apply nupd further operations: updates and merges of other results that
+    themselves carry 1-3 updates."""
     for _ in range(nupd):
+        if merges and rng.random() < 0.25:
+            r.merge(gen_result(rng, r.name, t, acc, int(rng.integers(1, 4)), merges=False))
+            continue
         if t == Result.CHOICETYPE:
             r.update(int(rng.integers(0, 4)))
         elif t == Result.RATIOTYPE:
@@ -269,7 +288,6 @@ def gen_result(rng, name, t, acc, nupd):
             r.update(gen_value(rng, str(rng.choice(["pyint", "pyfloat", "str"]))))
         else:
             r.update(gen_value(rng, "pyfloat") if rng.random() < 0.5 else int(rng.integers(-9, 9)))
-    return r
 
 
 TYPES = [Result.SUMTYPE, Result.RATIOTYPE, Result.MISCTYPE, Result.CHOICETYPE]
@@ -289,6 +307,16 @@ def case_result(ctx, rng, idx):
               "json", tag)
     roundtrip(ctx, "result-roundtrip", r, lambda x: Result.from_dict(x.to_dict()), canon_result,
               "dict", tag)
+    # the same object keeps living: more updates/merges, then serialised again
+    k = int(rng.integers(1, 4))
+    okc, _ = ctx.call("result-roundtrip", more_ops, rng, r, t, acc, k, detail=tag)
+    if okc:
+        tag2 = {**tag, "after-first-save": "%d more operations" % k,
+                "repr2": repr(canon_result(r))[:500]}
+        roundtrip(ctx, "result-roundtrip", r, lambda x: Result.from_json(x.to_json()),
+                  canon_result, "json:second-save", tag2)
+        roundtrip(ctx, "result-roundtrip", r, lambda x: Result.from_dict(x.to_dict()),
+                  canon_result, "dict:second-save", tag2)
     ctx.sig("result", TN[t], acc, min(nupd, 3))
 
 
@@ -350,6 +378,16 @@ def case_results(ctx, rng, idx):
                state["used"] == sr.get_filename_with_replaced_params(want_tmpl) and
                sr.original_filename == want_tmpl and "{" not in os.path.basename(state["used"]),
                cls=route, detail={**tag, **state, "original_filename": sr.original_filename})
+    # the same results object keeps accumulating and is saved again
+    if y is not None and idx % 2 == 0:
+        def grow():
+            for nm in sr.get_result_names():
+                r = sr[nm][-1]
+                more_ops(rng, r, r.type_code, r.accumulate_values_bool, int(rng.integers(1, 3)))
+        okc, _ = ctx.call("results-roundtrip", grow, cls="grow", detail=tag)
+        if okc:
+            roundtrip(ctx, "results-roundtrip", sr, save_load, canon_results,
+                      route + ":second-save", {**tag, "second-save": True}, strict)
     ctx.sig("results", route, tuple(sorted(set(tag["result_types"]))), tuple(tag["kinds"])[:3])
     ctx.sample("results:" + route, tag)
 
